@@ -1150,19 +1150,46 @@ func (g *gen) value() string {
 // staysInSandbox: a join that climbs above the sandbox root would show that /S is one level deep while the
 // real root is two levels deep (only the generator uses Go's filepath here, to discard such cases)
 func staysInSandbox(args []string) bool {
-	j := filepath.Join(args...)
-	if !filepath.IsAbs(j) {
-		j = filepath.Join("/S/"+projRel, j)
-	} else if j != "/S" && !strings.HasPrefix(j, "/S/") {
-		// absolute and never inside the sandbox: purely lexical, the same on both sides, unless it passed through /S
-		for _, a := range args {
-			if strings.HasPrefix(a, "/S") {
+	// `/S` stands for the real sandbox root, which lies deeper in the real tree than `/S` does in the model's: the two
+	// sides agree as long as (1) an argument naming the sandbox is the first non-empty one (filepath.Join glues later
+	// arguments on as relative components, and `/S/…` has fewer of them than the real path), and (2) the walk through the
+	// components never climbs above the sandbox root on the way, whatever it ends at
+	first := true
+	for _, a := range args {
+		if a == "" {
+			continue
+		}
+		if !first && strings.HasPrefix(a, "/S") {
+			return false
+		}
+		first = false
+	}
+	j := strings.Join(args, "/")
+	var comps []string
+	depth := 0 // components below the sandbox root
+	if strings.HasPrefix(j, "/") {
+		if j != "/S" && !strings.HasPrefix(j, "/S/") {
+			// absolute and outside the sandbox from the start: purely lexical, the same on both sides
+			return !strings.Contains(j, "/S")
+		}
+		comps = strings.Split(strings.TrimPrefix(j, "/S"), "/")
+	} else {
+		comps = strings.Split(j, "/")
+		depth = len(strings.Split(projRel, "/"))
+	}
+	for _, c := range comps {
+		switch c {
+		case "", ".":
+		case "..":
+			depth--
+			if depth < 0 {
 				return false
 			}
+		default:
+			depth++
 		}
-		return true
 	}
-	return j == "/S" || strings.HasPrefix(j, "/S/")
+	return true
 }
 
 type execSample struct {
@@ -1243,6 +1270,12 @@ func (g *gen) c13Random() *tcase {
 			}
 			e := bad[g.rng.Intn(len(bad))]
 			d = decl{name: n, kind: "X", args: []string{e.cmd}, stdout: e.stdout, status: e.status}
+			switch g.rng.Intn(5) {
+			case 0: // exec takes exactly one argument
+				d = decl{name: n, kind: "X", args: nil}
+			case 1:
+				d = decl{name: n, kind: "X", args: []string{"echo a", "echo b"}, stdout: "a\n"}
+			}
 		}
 		decls = append(decls, d)
 	}
@@ -1354,7 +1387,7 @@ func (g *gen) c13Random() *tcase {
 		// and the commands of the exec declarations, to see their raw output
 		if k == 0 {
 			for _, d := range decls {
-				if d.kind == "X" && d.status == 0 && !strings.Contains(d.args[0], "{{") {
+				if d.kind == "X" && len(d.args) == 1 && d.status == 0 && !strings.Contains(d.args[0], "{{") {
 					t.cmds = append(t.cmds, command{raw: true, src: d.args[0], stdout: d.stdout, status: 0})
 				}
 			}
